@@ -702,6 +702,9 @@ class Interp:
                 return self.decide(l[1]) == r[1]
             if r[1] is None:
                 return self.is_none(l)
+            if r[1] == "" and isinstance(r[1], str):
+                # s == '' is `not s` for the strings it is asked of
+                return not self.term_truth(l)
             if isinstance(r[1], int) and not isinstance(r[1], bool):
                 return self.decide(("ord", l, r),
                                    domain=("=", "<", ">")) == "="
